@@ -184,6 +184,7 @@ def structured(c):
     if len(segs) < len(NAMES):
         return None
     found = []
+    c.matched_chunks = segs[:len(NAMES)]
     for j in range(len(NAMES)):
         s = segs[j]
         if not (isinstance(s, sym.Chunk) and s.key() in st.cond_defs and s.key() not in st.refine):
@@ -297,7 +298,7 @@ def unmarshal_contract():
         def mk(st, name):
             me = SObj(props_class(), {}, provenance='param', label=name)
             conds, thunks = build(st)
-            chunks = [st.cond_chunk(st.fresh('wprop', sym.BytesS), q, th) for q, th in zip(conds, thunks)]
+            chunks = [st.cond_chunk(st.fresh('wprop', sym.BytesS), q, th, length=st.rope_len_term(th())) for q, th in zip(conds, thunks)]
             rest = [st.new_chunk('rest')]
             init = [SOpaque('foreign', st.fresh('init_' + n, sym.ObjS)) for n in NAMES]
             for n, v in zip(NAMES, init):
@@ -411,7 +412,7 @@ def init_contract():
 
     def argpair(c, n):
         v = getattr(c, n)
-        return (v.cond, v.a) if isinstance(v, SCond) else (True, v)
+        return (v.cond, v.a) if isinstance(v, SCond) else (v is not None, v)
 
     def v(c):
         s, m = argpair(c, 'delivery_mode')
@@ -430,6 +431,10 @@ def init_contract():
         Case('constructed', when=v, post=post, effects=eff),
         Case('rejected', when=lambda c: neg(v(c)), raises=ValueError),
     ], pure=False, bounded=False, doc='C13/C02: stores its arguments unchanged; ValueError iff validate refuses them')
+
+
+def default_like(st):
+    return SObj(props_class(), {n: SOpaque('foreign', st.fresh('garbage_' + n, sym.ObjS)) for n in NAMES}, provenance='fresh')
 
 
 def register(reg):
